@@ -153,6 +153,10 @@ Fixpoint enc_offsets (prev : list (list N * N)) (pos : N) (ext : list (key * lis
       end
   end.
 
+(* one 8-byte encoding record *)
+Definition rec_bytes (ke : key * (list N * N)) : list N :=
+  let '((p, e, _), (_, o)) := ke in be16 p ++ be16 e ++ be32 o.
+
 Definition M_encode_table (t : list (key * list N)) : outcome (list N) :=
   let numTables := N.of_nat (List.length t) in
   let endOfHeader := (4 + 8 * numTables) mod u32 in
@@ -160,8 +164,7 @@ Definition M_encode_table (t : list (key * list N)) : outcome (list N) :=
   (* make([]byte, endOfHeader, pos) panics when pos < endOfHeader *)
   if pos <? endOfHeader then Panic else
   Ok ([0; 0] ++ be16 numTables
-      ++ flat_map (fun ke => let '((p, e, _), (_, o)) := ke in be16 p ++ be16 e ++ be32 o)
-                  (combine (map fst t) ext)
+      ++ flat_map rec_bytes (combine (map fst t) ext)
       ++ flat_map fst ext).
 
 (* ------------------------------------------------------------------ *)
